@@ -78,22 +78,25 @@ package mempool
 //@   at call removeFromOwned assert at(beforeRemove, has(gmap("items", m.eh), str(Item.GetID(item))))
 //@   ensures RI(m) && SAME(m)
 
-// SetMinTimestamp hands the cut-off to the expiry heap on every path (which items are below it is the
-// heap's ASSUMED contract) and takes every item the heap dropped out of the queue as well
+// SetMinTimestamp removes exactly the items whose recorded expiry is below t (eheap.SetMin is verified
+// over the assumed minimum of the heap) and takes every item the heap dropped out of the queue as well
 //@ func (*Mempool).SetMinTimestamp props C23
 //@   noframe
 //@   opt monitor m.mu
 //@   reveal RI SAME
 //@   requires RI(m) && SAME(m)
-//@   modifies gint("len", m.queue), gmap("items", m.eh)[], gint("n", m.eh), gint("min", m.eh), gmap("q", m.queue)[], m.owned[], m.pendingSize
-//@   loop 1 invariant 0 <= idx1 && idx1 <= len(removedElems) && len(removed) == len(removedElems) && gint("min", m.eh) == t
+//@   modifies gint("len", m.queue), gmap("items", m.eh)[], gint("n", m.eh), gmap("top", m.eh)[], gmap("q", m.queue)[], m.owned[], m.pendingSize
+//@   loop 1 invariant 0 <= idx1 && idx1 <= len(removedElems) && len(removed) == len(removedElems)
 //@   loop 1 invariant gint("len", m.queue) == gint("n", m.eh) + len(removedElems) - idx1 && gint("n", m.eh) >= 0 && gint("len", m.queue) <= m.maxSize
 //@   loop 1 invariant !isnil(m.owned) && (forall s codec.Address :: has(m.owned, s) ==> 1 <= m.owned[s] && m.owned[s] <= m.maxSponsorSize)
-//@   loop 1 invariant forall x string :: has(gmap("q", m.queue), x) == (has(gmap("items", m.eh), x) || (exists j int :: idx1 <= j && j < len(removedElems) && x == str(Item.GetID(removedElems[j]))))
+//@   loop 1 invariant @g:ex forall x string :: has(gmap("q", m.queue), x) == (has(gmap("items", m.eh), x) || (exists j int :: idx1 <= j && j < len(removedElems) && x == str(Item.GetID(removedElems[j]))))
 //@   loop 1 invariant forall j int :: 0 <= j && j < len(removedElems) ==> !has(gmap("items", m.eh), str(Item.GetID(removedElems[j])))
 //@   loop 1 invariant forall i int, j int :: 0 <= i && i < j && j < len(removedElems) ==> str(Item.GetID(removedElems[i])) != str(Item.GetID(removedElems[j]))
-//@   ensures RI(m) && SAME(m)
-//@   ensures gint("min", m.eh) == t
+//@   loop 1 invariant forall x string :: has(gmap("items", m.eh), x) == (old(has(gmap("items", m.eh), x)) && eheap.expOf(gmap("exp", m.eh)[x]) >= t)
+//@   ensures RI(m)
+//@   ensures @g:ex SAME(m)
+// expiry removes exactly the held items whose recorded expiry is below the given time (on every path)
+//@   ensures forall x string :: has(gmap("items", m.eh), x) == (old(has(gmap("items", m.eh), x)) && eheap.expOf(gmap("exp", m.eh)[x]) >= t)
 
 // streamItems pops at most count items and marks every one of them as streamed
 //@ func (*Mempool).streamItems props C23
